@@ -69,6 +69,10 @@ def run(ctx):
     ctx.attempt("panic_sites", st.panic_sites)
     ctx.attempt("loops", st.loops)
     ctx.attempt("recursion", st.recursion)
+    # slice::sort / sort_by panic on a comparator that is not a total order (std >= 1.81): sort and sort_by compare with
+    # Variable's Ord::cmp, whose case table (C02's value-order rule) is therefore a premise of totality
+    from .c02 import check_internal_order
+    ctx.attempt("check_internal_order", check_internal_order, ctx, lib)
 
 
 class State:
